@@ -658,10 +658,10 @@ def no_early_result(ctx, jm: JoinModel, rule: str) -> None:
     padding or the cardinality checks that live in the loops."""
     f, it = jm.f, jm.it
     problems = []
+    from ..symx import show_conds as _show_conds
     for e, nm in jm.rebinds:
-        from ..symx import show_conds
         problems.append((f"`{nm}` is bound again to fresh empty buffers (line {e.node.lineno}"
-                         + (f", when {show_conds(e.conds[-1:], it)[:80]}" if e.conds else "") + "): the rows emitted into the buffers "
+                         + (f", when {_show_conds(e.conds[-1:], it)[:80]}" if e.conds else "") + "): the rows emitted into the buffers "
                          "created first are dropped", e.node))
     named = [(jm.index_loop, "index"), (jm.probe_loop, "probe")] + ([(jm.sweep_loop, "sweep")] if jm.sweep_loop is not None else [])
     for L, nm in named:
